@@ -542,6 +542,7 @@ def _run_case(idx, rng, tier, case, wd, src):
                      'serial_messages': nviol_serial, 'serial_checked': sref.get('checked'),
                      'parallel_runs': cnt['parallel_runs'], 'distinct_completion_orders': len(orders),
                      'example_orders': [[Path(k[11:-2]).name for k in o] for o in list(orders)[:3]]}
+    res['sample']['loki'] = parlab.LAST_LOKI_FILE
     res['counters'] = dict(cnt)
     return res
 
